@@ -180,4 +180,29 @@ def lockOrderOk : List Ev → List Tgt → Bool
   | .rel t :: r, held => lockOrderOk r (held.erase t)
   | .distinctOrReturn :: r, held => lockOrderOk r held
 
+/-! ### configurations of threads: what "no deadlock" means -/
+
+/-- the action a thread is about to perform can proceed in state `s` -/
+def enabled (s : St) : Act → Prop
+  | .acq .blocking _ m => (s m).holder = none
+  | .acq .try_ _ _ => True
+  | .rel _ => True
+
+/-- a configuration: the mutexes, the threads of interest, what each still has to do,
+    and which mutexes are private to a thread (a list created inside a call) -/
+structure Cfg where
+  s : St
+  ts : List Nat
+  prog : Nat → List Act
+  priv : Nat → Nat → Prop        -- `priv t m`: only thread `t` ever touches `m`
+
+/-- what the lock discipline guarantees in every reachable configuration -/
+structure Inv (c : Cfg) : Prop where
+  /-- a mutex is only ever held by a thread that still has something to do (calls release what they take) -/
+  holders : ∀ m t, (c.s m).holder = some t → t ∈ c.ts ∧ c.prog t ≠ []
+  /-- a thread about to lock `m` holds only lower-addressed mutexes, or private ones, and not `m` itself -/
+  ordered : ∀ t f m r, c.prog t = .acq .blocking f m :: r → ∀ m', (c.s m').holder = some t → m' ≠ m ∧ (m' < m ∨ c.priv t m')
+  /-- nobody else waits for a private mutex -/
+  private_ : ∀ t m, c.priv t m → ∀ t' f r, t' ≠ t → c.prog t' ≠ .acq .blocking f m :: r
+
 end RotoV.MutexPanic
